@@ -148,6 +148,9 @@ def leaves(mol, comps, level):
     ncut = M.n_cuts(mol, comps)
     k = len(comps)
     styles = STYLES_FULL if level == 'full' else STYLES_LITE if level == 'lite' else STYLES_LITE[:2] if level != 'hub' else STYLES_LITE[:1]
+    if any(a[2] for a in mol['atoms']) and any(o == 1.5 and not any(a in c and b in c for c in comps) for a, b, o in mol['bonds']):
+        # a cut aromatic bond may also be annotated with the aromatic bond symbol on its descriptors
+        styles = styles + [dict(STYLES_LITE[0], colon=True)]
     levels = [kinds_for(ncut, level), orders_for(k, level)]
     for c in comps:
         levels.append(list(c) if level not in ('lite2', 'lite3', 'hub') else [c[0], c[-1]] if (len(c) > 1 and level == 'lite2') else [c[-1] if level == 'lite3' else c[0]])
@@ -206,9 +209,9 @@ def reference(mol):
 def build(inp):
     mol = inp['mol']
     comps = [tuple(c) for c in inp['comps']]
-    descr, cnt = M.cut_descriptors(mol, comps, inp['kinds'])
-    hc = M.model_hcounts(mol)
     st = inp['style']
+    descr, cnt = M.cut_descriptors(mol, comps, inp['kinds'], colon=st.get('colon', False))
+    hc = M.model_hcounts(mol)
     frags = []
     for i, c in enumerate(comps):
         txt = M.render_fragment(mol, c, descr, inp['starts'][i], branch=st['branch'], ring_scheme=st['ring_scheme'],
